@@ -420,7 +420,42 @@ class Interp:
             return
         self.cut_loop(s, spec, None)
 
+    def abstract_loop(self, s, spec):
+        """loop spec {'abstract': {'calls': [...]}}: the loop is replaced by its frame -- it runs an
+        unknown number of times a body that (checked here, syntactically) calls nothing but the
+        listed pure / appending helpers, so it evaluates no template expression and runs no child;
+        it appends some text to the output stream, rebinds the names it assigns, and may raise"""
+        allowed = set(spec['abstract'].get('calls', ()))
+        for n in ast.walk(ast.Module(body=[s], type_ignores=[])):
+            if isinstance(n, ast.Call):
+                if isinstance(n.func, ast.Name) and n.func.id in allowed:
+                    continue
+                if isinstance(n.func, ast.Attribute) and n.func.attr in allowed:
+                    continue
+                raise Unsupported('abstract loop at line %d calls %s' % (s.lineno, ast.unparse(n.func)))
+        names, mutated = assigned_names(s.body)
+        for t in ast.walk(s.target):
+            if isinstance(t, ast.Name):
+                names.add(t.id)
+        for n in sorted(names | mutated):
+            self.env[n] = fresh(Ty('any'), 'loop_' + n.strip('_'))
+        st = self.ghost.get('k3')
+        if st is not None:
+            nel = z3.Int(fresh_name('loop_elems'))
+            self.assume(nel >= 0)
+            st.stream.append_text(z3.String(fresh_name('loop_out')), nel)
+        if self.path.choose(2, 'abstract-loop-%d' % self.loop_ord.get(s)) == 1:
+            from .k3 import new_sym_exc
+            exc = new_sym_exc(self, fresh_name('exc!loop'))
+            exc.extra['origin'] = ('loop', self.loop_ord.get(s))
+            self.ghost['raised_exc'] = exc
+            self.ghost['loop_failed'] = True
+            raise Raised(exc)
+
     def st_For(self, s):
+        spec0 = self.loop_spec(s)
+        if spec0 and spec0.get('abstract') is not None:
+            return self.abstract_loop(s, spec0)
         it = self.eval(s.iter)
         items = models.concrete_iter(self, it)
         if items is not None:
